@@ -11,7 +11,8 @@ Record eds_snapshot := MkEdsSnap {
   es_default_mode : vmode;
   es_fail_status : bool;               (* the status write is rejected *)
   es_fail_update : bool;               (* the spec/annotation write is rejected *)
-  es_fail_rs_delete : list name        (* replica sets whose deletion is rejected *)
+  es_fail_rs_delete : list name;       (* replica sets whose deletion is rejected *)
+  es_fail_rs_create : bool             (* the replica-set creation is rejected *)
 }.
 
 (** The new replica set sent to the API (GenerateName = <eds name>-). *)
@@ -153,7 +154,8 @@ Definition eds_sync : outcome eds_plan :=
             match last_such (rs_up_to_date e) rss with
             | None =>
                 Ok (MkEdsPlan [WCreateRs (MkNewRs (e_ns e) (e_name e) (e_name e) (e_tmpl_hash e) (e_tmpl_hash e)
-                                                  (e_tmpl_hash e) (e_selector e))] true 0 false)
+                                                  (e_tmpl_hash e) (e_selector e))]
+                              (negb (es_fail_rs_create sn)) 0 (es_fail_rs_create sn))
             | Some uptodate =>
                 let '(current, rq) := select_current (e_annots e) (st_canary (e_strategy e)) active uptodate (es_now sn) in
                 let dels := map r_name
